@@ -420,7 +420,7 @@ pub fn emit_conn_ex(out: &mut Out, cfg: &str, timeout: bool, events: &[String], 
     let read_to_end = nresp == nreq || (r.ends_with("X[panic]") && nresp + 1 == nreq);
     if tokio == Some(true) {
         if !timeout && read_to_end { TOKIO_INPUTS.with(|t| t.borrow_mut().push(f.clone())); }
-    } else if tokio.is_none() && every > 0 && !timeout && read_to_end && tag != "idle" && tag != "pause-inside" && tag != "ws" && tag != "split" && tag != "bytewise" {
+    } else if tokio.is_none() && every > 0 && !timeout && (read_to_end || ((tag == "ws" || tag == "keep-alive-hosts") && nresp + 1 == nreq)) && tag != "idle" && tag != "pause-inside" && tag != "split" && tag != "bytewise" {
         let n = TOKIO_COUNTER.with(|c| { c.set(c.get() + 1); c.get() });
         if n % every == 0 { TOKIO_INPUTS.with(|t| t.borrow_mut().push(f.clone())); }
     }
